@@ -461,6 +461,9 @@ class PathEnumerator:
         if isinstance(tg, ast.Attribute):
             base = self.ev.expr(tg.value, f)
             p.events.append(Event("store", st, ("store", base, tg.attr, v)))
+            if base[0] == "cls":
+                # a class attribute rebound on this path is read back as rebound (monkey-patching is path state)
+                p.env[f"@{base[1]}.{tg.attr}"] = v
             if isinstance(tg.value, ast.Name) and base[0] == "new":
                 # a store on an object constructed in this function updates the constructed value
                 flds = dict(base[2])
